@@ -2,15 +2,21 @@
  * (contract and invariant: contracts/chacha.h), block functions replaced by their contract
  * with the history log.
  *   -DBYTES=<n>   length of this call (exact-size buffers: one byte too far fails)
+ *   -DKL=<n>      ks_len at entry (0..63): unused tail of the previous key-stream block
  *   -DSO / -DDO   alignment residues of src / dst, -DMODE 0 separate | 1 src NULL | 2 in place
- * Symbolic: the whole context (state, saved key stream, ks_len 0..63), the log origin
- * (vf_cc_n in 0..1) and the previous log entry, the data. */
+ * Symbolic: the whole context (state, saved key stream), the log origin (vf_cc_n in 0..1)
+ * and the previous log entry, the data.  BYTES and KL are concrete per job: with symbolic
+ * lengths the byte loops of memcpy / the xor loop do not close (measured: > 20 min). */
+#include "stubs/cipher_libc.h"	/* byte-loop memcpy / memset: the builtin model is wrong here, see the file */
 #define VF_CC_GHOST_LOG
 #define VF_CC_PART_B
 #include "contracts/chacha.h"
 
 #ifndef BYTES
 #define BYTES 100
+#endif
+#ifndef KL
+#define KL 0
 #endif
 #ifndef SO
 #define SO 0
@@ -30,6 +36,8 @@ void harness(void) {
 	static uint8_t db[DO + BYTES + (BYTES == 0)] __attribute__((aligned(8)));
 	chacha_context_str_p ctx = &sctxv;
 	uint8_t *src, *dst;
+
+	sctxv.ks_len = KL;
 	unsigned i;
 
 	for (i = 0; i < BYTES; i ++)
